@@ -169,7 +169,9 @@ type extractor struct {
 	atomLock  map[string]int    // pseudo lock that stands for the atomicity of one Load / Store
 	ptrPkg    map[string]string // ptr field -> import path of its element type's package ("" if unknown)
 
-	methods map[string]*ast.FuncDecl
+	methods     map[string]*ast.FuncDecl            // methods of the guarded type itself
+	typeMethods map[string]map[string]*ast.FuncDecl // per struct type of the tree (guarded type and nested structs)
+	root        *snode
 
 	objMethods map[string]bool // method of the pointed-to type -> mutates its receiver
 	objKnown   map[string]bool
@@ -181,8 +183,91 @@ type extractor struct {
 
 type scope struct {
 	recv  *ast.Object
+	node  *snode              // the (sub-)struct the receiver denotes: the guarded type itself or a struct nested in it
 	env   map[*ast.Object]int // tracked object-valued locals
 	depth int
+}
+
+// snode: the guarded struct type, or a struct type nested in it BY VALUE (embedded or as a named field).  The
+// guarded state is identified structurally: a leaf is a field that is not such a nested struct; leaves are keyed by
+// their path from the guarded type ("index", "routeIndex.index") and numbered depth first in declaration order,
+// mutexes (by their type sync.Mutex / sync.RWMutex) and data fields separately.
+type snode struct {
+	typeName string
+	prefix   string
+	fields   []sfield
+}
+
+type sfield struct {
+	name     string
+	embedded bool
+	leaf     string // key of the leaf ("" for a nested struct)
+	sub      *snode
+}
+
+// resolve follows the selector names from node n: direct fields first, then fields promoted through embedded
+// structs.  Returns the leaf key (if the names end at a leaf), or the nested struct reached, and the number of names used.
+func (n *snode) resolve(names []string) (string, *snode, int) {
+	cur := n
+	used := 0
+
+	for used < len(names) {
+		f, ok := cur.field(names[used])
+		if !ok {
+			return "", nil, used
+		}
+
+		used++
+
+		if f.sub == nil {
+			return f.leaf, nil, used
+		}
+
+		cur = f.sub
+	}
+
+	if used == 0 {
+		return "", nil, 0
+	}
+
+	return "", cur, used
+}
+
+func (n *snode) field(name string) (sfield, bool) {
+	for _, f := range n.fields {
+		if f.name == name {
+			return f, true
+		}
+	}
+
+	for _, f := range n.fields {
+		if f.embedded && f.sub != nil {
+			if g, ok := f.sub.field(name); ok {
+				return g, true
+			}
+		}
+	}
+
+	return sfield{}, false
+}
+
+// selChain: e = base.n1.n2...  (parentheses ignored)
+func selChain(e ast.Expr) (*ast.Ident, []string) {
+	var names []string
+
+	for {
+		switch v := e.(type) {
+		case *ast.ParenExpr:
+			e = v.X
+		case *ast.SelectorExpr:
+			names = append([]string{v.Sel.Name}, names...)
+			e = v.X
+		case *ast.Ident:
+			return v, names
+		default:
+			return nil, nil
+		}
+	}
 }
 
 func (x *extractor) newLocal(name string) int {
@@ -206,19 +291,89 @@ func lockMethod(name string) string {
 	return ""
 }
 
-// recvField returns the field name if e is `recv.f`.
+// recvField returns the key of the leaf field if e is `recv.f` / `recv.sub.f` (a path from the receiver to a leaf,
+// promoted fields included).
 func (x *extractor) recvField(sc *scope, e ast.Expr) (string, bool) {
-	sel, ok := e.(*ast.SelectorExpr)
-	if !ok {
+	if _, ok := e.(*ast.SelectorExpr); !ok {
 		return "", false
 	}
 
-	id, ok := sel.X.(*ast.Ident)
-	if !ok || id.Obj == nil || id.Obj != sc.recv {
+	id, names := selChain(e)
+	if id == nil || id.Obj == nil || id.Obj != sc.recv || len(names) == 0 {
 		return "", false
 	}
 
-	return sel.Sel.Name, true
+	if sc.node == nil {
+		return names[0], len(names) == 1
+	}
+
+	leaf, _, used := sc.node.resolve(names)
+	if leaf == "" || used != len(names) {
+		if used == 0 && len(names) == 1 {
+			return names[0], true // not a field: a method value or an unknown name (handled by the callers)
+		}
+
+		return "", false
+	}
+
+	return leaf, true
+}
+
+// recvNode: e is the receiver or a path from it to a struct nested in the guarded type
+func (x *extractor) recvNode(sc *scope, e ast.Expr) (*snode, bool) {
+	id, names := selChain(e)
+	if id == nil || id.Obj == nil || id.Obj != sc.recv || sc.node == nil {
+		return nil, false
+	}
+
+	if len(names) == 0 {
+		return sc.node, true
+	}
+
+	_, sub, used := sc.node.resolve(names)
+	if sub == nil || used != len(names) {
+		return nil, false
+	}
+
+	return sub, true
+}
+
+// lookupMethod: method `name` of the struct n, or promoted from a struct embedded in it
+func (x *extractor) lookupMethod(n *snode, name string) (*ast.FuncDecl, *snode) {
+	if d, ok := x.typeMethods[n.typeName][name]; ok {
+		return d, n
+	}
+
+	for _, f := range n.fields {
+		if f.embedded && f.sub != nil {
+			if d, m := x.lookupMethod(f.sub, name); d != nil {
+				return d, m
+			}
+		}
+	}
+
+	return nil, nil
+}
+
+// embeddedLock: the mutex embedded in n (or in a struct embedded in n), for `recv.Lock()`
+func (x *extractor) embeddedLock(n *snode) (int, bool) {
+	for _, f := range n.fields {
+		if f.embedded && f.sub == nil {
+			if id, ok := x.lockID[f.leaf]; ok {
+				return id, true
+			}
+		}
+	}
+
+	for _, f := range n.fields {
+		if f.embedded && f.sub != nil {
+			if id, ok := x.embeddedLock(f.sub); ok {
+				return id, true
+			}
+		}
+	}
+
+	return 0, false
 }
 
 func (x *extractor) isRecv(sc *scope, e ast.Expr) bool {
@@ -401,7 +556,7 @@ func (x *extractor) args(sc *scope, args []ast.Expr) []stmt {
 	return out
 }
 
-func (x *extractor) inline(sc *scope, decl *ast.FuncDecl, call *ast.CallExpr) []stmt {
+func (x *extractor) inline(sc *scope, decl *ast.FuncDecl, node *snode, call *ast.CallExpr) []stmt {
 	if sc.depth > 6 {
 		return []stmt{unsupported(x.pos(call) + ": inlining too deep (recursion?)")}
 	}
@@ -415,7 +570,7 @@ func (x *extractor) inline(sc *scope, decl *ast.FuncDecl, call *ast.CallExpr) []
 		params = append(params, f.Names...)
 	}
 
-	inner := &scope{env: map[*ast.Object]int{}, depth: sc.depth + 1}
+	inner := &scope{env: map[*ast.Object]int{}, depth: sc.depth + 1, node: node}
 	if decl.Recv != nil && len(decl.Recv.List) == 1 && len(decl.Recv.List[0].Names) == 1 {
 		inner.recv = decl.Recv.List[0].Names[0].Obj
 	}
@@ -558,18 +713,17 @@ func (x *extractor) call(sc *scope, call *ast.CallExpr, resultUsed bool) []stmt 
 			return append(out, unsupported(x.pos(call)+": method "+name+" called on a value reached through guarded field "+f))
 		}
 
-		// embedded mutex: recv.Lock()
-		if x.isRecv(sc, fun.X) {
+		// recv.Lock() (embedded mutex), recv.m(..), recv.sub.m(..): methods of the guarded type or of a struct nested
+		// in it are inlined with the callee's receiver standing for that (sub-)struct
+		if node, ok := x.recvNode(sc, fun.X); ok {
 			if e := lockMethod(name); e != "" {
-				for _, emb := range []string{"Mutex", "RWMutex"} {
-					if id, ok := x.lockID[emb]; ok {
-						return []stmt{ev(fmt.Sprintf("%s %d", e, id))}
-					}
+				if id, ok := x.embeddedLock(node); ok {
+					return []stmt{ev(fmt.Sprintf("%s %d", e, id))}
 				}
 			}
 
-			if decl, ok := x.methods[name]; ok {
-				return x.inline(sc, decl, call)
+			if decl, at := x.lookupMethod(node, name); decl != nil {
+				return x.inline(sc, decl, at, call)
 			}
 
 			return []stmt{unsupported(x.pos(call) + ": call of unknown receiver method " + name)}
@@ -643,6 +797,10 @@ func (x *extractor) expr(sc *scope, e ast.Expr) []stmt {
 			}
 
 			return []stmt{unsupported(x.pos(v) + ": method value or unknown field " + f)}
+		}
+
+		if _, ok := x.recvNode(sc, v); ok {
+			return []stmt{unsupported(x.pos(v) + ": a struct nested in the guarded type is used as a value")}
 		}
 
 		if l, ok := x.trackedLocal(sc, v.X); ok {
@@ -1400,76 +1558,145 @@ func main() {
 
 	ptrElem := map[string][2]string{} // field -> (pkg import path, type name)
 
-	for _, fld := range st.Fields.List {
-		names := []string{}
-		for _, n := range fld.Names {
-			names = append(names, n.Name)
-		}
+	// struct types declared in the package (a field of such a type, embedded or named, is a nested part of the guarded state)
+	pkgStructs := map[string]*ast.StructType{}
 
-		kind := ""
-
-		if sel, ok := fld.Type.(*ast.SelectorExpr); ok {
-			if id, ok := sel.X.(*ast.Ident); ok && imports[id.Name] == "sync" &&
-				(sel.Sel.Name == "Mutex" || sel.Sel.Name == "RWMutex") {
-				kind = sel.Sel.Name
-
-				if len(names) == 0 {
-					names = []string{sel.Sel.Name} // embedded
-				}
-			}
-		}
-
-		for _, n := range names {
-			if kind != "" {
-				x.lockID[n] = len(x.lockNames)
-				x.lockNames = append(x.lockNames, n)
-				x.lockKind[n] = kind
-
+	for _, of := range append([]*ast.File{f}, parseDir(fset, filepath.Dir(path))...) {
+		for _, d := range of.Decls {
+			gd, ok := d.(*ast.GenDecl)
+			if !ok || gd.Tok != token.TYPE {
 				continue
 			}
 
-			x.varID[n] = len(x.varNames)
-			x.varNames = append(x.varNames, n)
-
-			var el ast.Expr
-
-			if star, ok := fld.Type.(*ast.StarExpr); ok {
-				el = star.X
-			}
-
-			// sync/atomic.Pointer[T]
-			if ix, ok := fld.Type.(*ast.IndexExpr); ok {
-				if sel, ok := ix.X.(*ast.SelectorExpr); ok && sel.Sel.Name == "Pointer" {
-					if id, ok := sel.X.(*ast.Ident); ok && imports[id.Name] == "sync/atomic" {
-						el = ix.Index
-						x.isAtomic[n] = true
+			for _, sp := range gd.Specs {
+				if ts, ok := sp.(*ast.TypeSpec); ok && ts.TypeParams == nil {
+					if stt, ok := ts.Type.(*ast.StructType); ok {
+						if _, dup := pkgStructs[ts.Name.Name]; !dup {
+							pkgStructs[ts.Name.Name] = stt
+						}
 					}
-				}
-			}
-
-			if el != nil {
-				x.isPtr[n] = true
-
-				if ix, ok := el.(*ast.IndexExpr); ok {
-					el = ix.X
-				}
-
-				if ix, ok := el.(*ast.IndexListExpr); ok {
-					el = ix.X
-				}
-
-				if sel, ok := el.(*ast.SelectorExpr); ok {
-					if id, ok := sel.X.(*ast.Ident); ok {
-						ptrElem[n] = [2]string{imports[id.Name], sel.Sel.Name}
-					}
-				}
-
-				if id, ok := el.(*ast.Ident); ok {
-					ptrElem[n] = [2]string{"", id.Name} // a type of the same package
 				}
 			}
 		}
 	}
+
+	var build func(typeName string, stt *ast.StructType, prefix string, depth int) *snode
+
+	build = func(typeName string, stt *ast.StructType, prefix string, depth int) *snode {
+		node := &snode{typeName: typeName, prefix: prefix}
+
+		for _, fld := range stt.Fields.List {
+			names := []string{}
+			for _, n := range fld.Names {
+				names = append(names, n.Name)
+			}
+
+			embedded := len(names) == 0
+			kind := ""
+
+			if sel, ok := fld.Type.(*ast.SelectorExpr); ok {
+				if id, ok := sel.X.(*ast.Ident); ok && imports[id.Name] == "sync" &&
+					(sel.Sel.Name == "Mutex" || sel.Sel.Name == "RWMutex") {
+					kind = sel.Sel.Name
+
+					if embedded {
+						names = []string{sel.Sel.Name}
+					}
+				}
+			}
+
+			// a struct of the package nested by value
+			if id, ok := fld.Type.(*ast.Ident); ok && kind == "" && depth < 8 {
+				if sub, ok := pkgStructs[id.Name]; ok {
+					if embedded {
+						names = []string{id.Name}
+					}
+
+					for _, n := range names {
+						node.fields = append(node.fields, sfield{name: n, embedded: embedded,
+							sub: build(id.Name, sub, prefix+n+".", depth+1)})
+					}
+
+					continue
+				}
+			}
+
+			if embedded && kind == "" {
+				// an embedded type that is not analysed (pointer to a struct, foreign type): a plain leaf under its type name
+				t := fld.Type
+				if st, ok := t.(*ast.StarExpr); ok {
+					t = st.X
+				}
+
+				switch v := t.(type) {
+				case *ast.Ident:
+					names = []string{v.Name}
+				case *ast.SelectorExpr:
+					names = []string{v.Sel.Name}
+				default:
+					continue
+				}
+			}
+
+			for _, short := range names {
+				n := prefix + short
+				node.fields = append(node.fields, sfield{name: short, embedded: embedded, leaf: n})
+
+				if kind != "" {
+					x.lockID[n] = len(x.lockNames)
+					x.lockNames = append(x.lockNames, n)
+					x.lockKind[n] = kind
+
+					continue
+				}
+
+				x.varID[n] = len(x.varNames)
+				x.varNames = append(x.varNames, n)
+
+				var el ast.Expr
+
+				if star, ok := fld.Type.(*ast.StarExpr); ok {
+					el = star.X
+				}
+
+				// sync/atomic.Pointer[T]
+				if ix, ok := fld.Type.(*ast.IndexExpr); ok {
+					if sel, ok := ix.X.(*ast.SelectorExpr); ok && sel.Sel.Name == "Pointer" {
+						if id, ok := sel.X.(*ast.Ident); ok && imports[id.Name] == "sync/atomic" {
+							el = ix.Index
+							x.isAtomic[n] = true
+						}
+					}
+				}
+
+				if el != nil {
+					x.isPtr[n] = true
+
+					if ix, ok := el.(*ast.IndexExpr); ok {
+						el = ix.X
+					}
+
+					if ix, ok := el.(*ast.IndexListExpr); ok {
+						el = ix.X
+					}
+
+					if sel, ok := el.(*ast.SelectorExpr); ok {
+						if id, ok := sel.X.(*ast.Ident); ok {
+							ptrElem[n] = [2]string{imports[id.Name], sel.Sel.Name}
+						}
+					}
+
+					if id, ok := el.(*ast.Ident); ok {
+						ptrElem[n] = [2]string{"", id.Name} // a type of the same package
+					}
+				}
+			}
+		}
+
+		return node
+	}
+
+	x.root = build(*typ, st, "", 0)
 
 	// one pseudo lock per atomic pointer field: a Load holds it shared, a Store exclusively, for that access only
 	for _, n := range x.varNames {
@@ -1503,21 +1730,57 @@ func main() {
 	// --- methods
 	var order []string
 
-	for _, d := range f.Decls {
-		if fd, ok := d.(*ast.FuncDecl); ok && fd.Body != nil && recvTypeName(fd) == *typ {
-			x.methods[fd.Name.Name] = fd
-			order = append(order, fd.Name.Name)
+	treeTypes := map[string]bool{}
+
+	var collect func(n *snode)
+
+	collect = func(n *snode) {
+		treeTypes[n.typeName] = true
+
+		for _, fl := range n.fields {
+			if fl.sub != nil {
+				collect(fl.sub)
+			}
+		}
+	}
+
+	collect(x.root)
+
+	x.typeMethods = map[string]map[string]*ast.FuncDecl{}
+
+	for _, of := range append([]*ast.File{f}, parseDir(fset, filepath.Dir(path))...) {
+		for _, d := range of.Decls {
+			fd, ok := d.(*ast.FuncDecl)
+			if !ok || fd.Body == nil {
+				continue
+			}
+
+			tn := recvTypeName(fd)
+			if !treeTypes[tn] {
+				continue
+			}
+
+			if x.typeMethods[tn] == nil {
+				x.typeMethods[tn] = map[string]*ast.FuncDecl{}
+			}
+
+			if _, dup := x.typeMethods[tn][fd.Name.Name]; dup {
+				continue // the file itself is parsed twice (f and parseDir)
+			}
+
+			x.typeMethods[tn][fd.Name.Name] = fd
+
+			if tn == *typ {
+				x.methods[fd.Name.Name] = fd
+				order = append(order, fd.Name.Name)
+			}
 		}
 	}
 
 	// entry points: exported methods, plus unexported ones referenced from other files of the package
 	guardedNames := map[string]bool{}
-	for _, n := range x.lockNames {
-		guardedNames[n] = true
-	}
-
-	for _, n := range x.varNames {
-		guardedNames[n] = true
+	for _, n := range append(append([]string{}, x.lockNames...), x.varNames...) {
+		guardedNames[n[strings.LastIndex(n, ".")+1:]] = true // the field's own name (paths: nested structs)
 	}
 
 	external := map[string]bool{}
@@ -1610,7 +1873,7 @@ func main() {
 		}
 
 		x.localNames = nil
-		sc := &scope{env: map[*ast.Object]int{}}
+		sc := &scope{env: map[*ast.Object]int{}, node: x.root}
 		_, ptrRecv := fd.Recv.List[0].Type.(*ast.StarExpr)
 
 		if len(fd.Recv.List[0].Names) == 1 {
